@@ -364,7 +364,9 @@ func (g *Generator) generateBindingFile(file *protogen.File) error {
 	gf.P("Violations: []*sebufhttp.FieldViolation{")
 	gf.P("{")
 	gf.P(`Field: "body",`)
-	gf.P(`Description: fmt.Sprintf("failed to parse request body: %v", err),`)
+	gf.P("// The decoder's message may quote bytes of the body that are not valid UTF-8,")
+	gf.P("// which would make the ValidationError itself unserializable")
+	gf.P(`Description: strings.ToValidUTF8(fmt.Sprintf("failed to parse request body: %v", err), "\uFFFD"),`)
 	gf.P("},")
 	gf.P("},")
 	gf.P("}")
